@@ -58,6 +58,15 @@ func docPacket(kind string, seq uint64, key string, casClass string, coll uint32
 		p.Value = []byte(fmt.Sprintf("v%d", seq))
 		p.Datatype = uint8(seq % 4)
 	}
+	if kind != "mutation" {
+		// the tombstone's delete_time, as the server supplies it: another second than the CAS, and on the OTHER
+		// side of skipUntil (event time and the skipUntil decision follow the CAS)
+		if casClass == "before" {
+			p.DeleteTime = uint32(skipT.Unix() + 150)
+		} else {
+			p.DeleteTime = uint32(skipT.Unix() - 150)
+		}
+	}
 	if kind == "mutation" {
 		p.Flags = uint32(seq * 3)
 		p.Expiry = uint32(seq * 5)
@@ -86,6 +95,8 @@ func symbolPacket(sym string, seq uint64) gocbcore.SimPacket {
 		return docPacket("mutation", seq, txnPrefix+[]string{"abc", "client-record", "atr-1"}[seq%3], "after", 0)
 	case "Dres":
 		return docPacket("deletion", seq, reservedPrefix+"y", "after", 0)
+	case "Eres": // the expiry of a library document with a TTL (a member's heart-beat document)
+		return docPacket("expiration", seq, reservedPrefix+"g:instance:00000000-dead", "after", 0)
 	case "Mpart":
 		return docPacket("mutation", seq, "_connector:cbg", "after", 0)
 	case "Minfix": // an application key that merely CONTAINS a reserved prefix
